@@ -135,6 +135,9 @@ func check(c modedit.Case) pbt.Result {
 	switch verb {
 	case "require":
 		for _, q := range setter.Reqs {
+			if wantPaths[q.Path] {
+				continue // the same requirement listed again: still one directive per path
+			}
 			want = append(want, modedit.Entry{Verb: "require", Args: []string{q.Path, q.Version}, Indirect: q.Indirect}.Canon())
 			wantPaths[q.Path] = true
 		}
